@@ -345,6 +345,103 @@ theorem conflicting_birth_rejected {m : Mgr} {v : View} {u : Upd} {f : Frame} (h
   rw [h1, hi, h2, h3]
   rfl
 
+/-! ### Null is a value (lesson 15)
+
+While the INITIAL population is built a column is in the table only because some component has supplied it: a
+null cell (NaN / NaT / None) IS that component's initial value, and the overlap test (`Series.equals`) treats
+it as one – null equals null and nothing else. At a BIRTH the new rows are in the table as nulls before
+anybody has supplied anything, and the code's conflict test skips a column whose addressed cells are all null. -/
+
+/-- **What the initial creation accepts for a column that already exists: only an exact duplicate** – the
+same simulants in the same order, the same dtype, the same cells with the nulls in the same places. -/
+theorem initial_accepted_overlap_equal {m m' : Mgr} {v : View} {u : Upd} (hi : m.initial = true)
+    (h : update m v u = .ok m') :
+    ∃ f, coerce u (viewColumns m.table v) = .ok f ∧
+      ∀ c ∈ f.cols, ∀ k, m.table.col? c.name = some k →
+        f.rows = m.table.rows ∧ c.dtype = k.dtype ∧ c.vals = k.cells := by
+  unfold update at h
+  simp only [hi] at h
+  split at h
+  · cases h
+  · rename_i f hf
+    split at h
+    · cases h
+    · rename_i hpre
+      refine ⟨f, hf, ?_⟩
+      intro c hc k hk
+      unfold precheck at hpre
+      split at hpre
+      · cases hpre
+      · simp only [if_true] at hpre
+        unfold coherentInit at hpre
+        split at hpre
+        · cases hpre
+        · split at hpre
+          · cases hpre
+          · split at hpre
+            · cases hpre
+            · rename_i hno
+              simp only [List.any_eq_true, not_exists, not_and] at hno
+              have := hno c hc
+              rw [hk] at this
+              simp only [seriesEquals, Bool.not_eq_true', Bool.not_eq_false, Bool.and_eq_true,
+                decide_eq_true_eq] at this
+              exact ⟨this.1.1, this.1.2, this.2⟩
+
+/-- **The first provider supplied nothing but nulls** (`exit_time = NaT` for everybody …), a second component
+supplies a real value for somebody: rejected, whatever new columns the second component brings along. -/
+theorem all_null_first_initial_rejected {m : Mgr} {v : View} {u : Upd} {f : Frame} (hi : m.initial = true)
+    (hc : coerce u (viewColumns m.table v) = .ok f)
+    (h : ∃ c ∈ f.cols, ∃ k, m.table.col? c.name = some k ∧ (∀ x ∈ k.cells, x = .null) ∧ ∃ x ∈ c.vals, x ≠ .null) :
+    ∃ e, applyUpdate m v u = (m, some e) := by
+  obtain ⟨c, hcm, k, hk, hall, x, hx, hxn⟩ := h
+  refine conflicting_initial_rejected hi hc ⟨c, hcm, k, hk, Or.inr (Or.inr ?_)⟩
+  intro heq
+  rw [heq] at hx
+  exact hxn (hall x hx)
+
+/-- **Null against value in one cell, either way round** (the column held null and the update says a value, or
+the column held a value and the update says null): rejected. -/
+theorem null_vs_value_initial_rejected {m : Mgr} {v : View} {u : Upd} {f : Frame} (hi : m.initial = true)
+    (hc : coerce u (viewColumns m.table v) = .ok f)
+    (h : ∃ c ∈ f.cols, ∃ k, m.table.col? c.name = some k ∧ ∃ (i : Nat) (x : Val),
+      (k.cells[i]? = some Val.null ∧ c.vals[i]? = some x ∧ x ≠ Val.null) ∨
+      (c.vals[i]? = some Val.null ∧ k.cells[i]? = some x ∧ x ≠ Val.null)) :
+    ∃ e, applyUpdate m v u = (m, some e) := by
+  obtain ⟨c, hcm, k, hk, i, x, hcase⟩ := h
+  refine conflicting_initial_rejected hi hc ⟨c, hcm, k, hk, Or.inr (Or.inr ?_)⟩
+  intro heq
+  rcases hcase with ⟨h1, h2, h3⟩ | ⟨h1, h2, h3⟩
+  · rw [heq, h1] at h2; cases h2; exact h3 rfl
+  · rw [heq, h2] at h1; cases h1; exact h3 rfl
+
+/-- **The births reading of the code that exists**: a column whose cells for the addressed simulants are all
+null is never in conflict – the new rows exist as null cells before any initializer runs, so the test cannot tell
+"nobody has supplied a value yet" from "somebody has supplied null" (observed and judged NOT a finding: the property
+needs two VALUES; the oracle has no opinion there; `birth_null_first_example` below). -/
+theorem birth_null_cells_no_conflict {t : Table} {f : Frame} {c : UCol} {k : Col} (hk : t.col? c.name = some k)
+    (h : ∀ x ∈ locCells t.rows k.cells f.rows, x = .null) : conflicting t f c = false := by
+  unfold conflicting
+  rw [hk]
+  have : ((locCells t.rows k.cells f.rows).any fun x => decide (x ≠ Val.null)) = false := by
+    simp only [List.any_eq_false, decide_eq_true_eq]
+    intro x hx; simpa using h x hx
+  simp only [this, Bool.false_and]
+
+/-- … but as soon as one addressed cell holds a value, anything but an exact duplicate (nulls in the same places)
+is a conflict: a value replaced by null, a null replaced by a value next to a filled cell, another value -/
+theorem birth_filled_cells_conflict {t : Table} {f : Frame} {c : UCol} {k : Col} (hk : t.col? c.name = some k)
+    (h1 : ∃ x ∈ locCells t.rows k.cells f.rows, x ≠ .null)
+    (h2 : c.vals ≠ locCells t.rows k.cells f.rows) : conflicting t f c = true := by
+  unfold conflicting
+  rw [hk]
+  have : ((locCells t.rows k.cells f.rows).any fun x => decide (x ≠ Val.null)) = true := by
+    obtain ⟨x, hx, hn⟩ := h1
+    simp only [List.any_eq_true, decide_eq_true_eq]
+    exact ⟨x, hx, hn⟩
+  simp only [this, Bool.true_and, seriesEquals, Bool.not_eq_true', Bool.and_eq_false_iff, decide_eq_false_iff_not]
+  exact Or.inr h2
+
 /-! ### Filling the new rows gives the existing simulants their exact old state back
 
 While a birth is in progress an `int64` column is shown as `float64` and a `bool` column as `object`
@@ -487,5 +584,23 @@ example : (runOps {} [.create 2, .upd trackedView (trackedInit [0, 1]),
     .upd (mkView ["x"] .tt) (.frame [0, 1] [⟨"x", .int, [.int 1, .int 2]⟩]),
     .upd (mkView ["y", "x"] .tt) (.frame [0, 1] [⟨"y", .int, [.int 0, .int 0]⟩, ⟨"x", .int, [.int 1, .int 3]⟩]),
     .endCreate]).1.table.names = ["tracked", "x"] := by decide
+
+/-- lesson 15, initial creation: the first component supplies `y = null` for everybody, the second one values (and a
+new column of its own): rejected, the table keeps what it had; an exact duplicate of the nulls is accepted -/
+def exNullInit : Mgr := (runOps {} [.create 2, .upd trackedView (trackedInit [0, 1]),
+    .upd (mkView ["y"] .tt) (.frame [0, 1] [⟨"y", .time, [.null, .null]⟩])]).1
+example : (applyUpdate exNullInit (mkView ["z", "y"] .tt)
+    (.frame [0, 1] [⟨"z", .int, [.int 1, .int 1]⟩, ⟨"y", .time, [.time 5, .null]⟩])) = (exNullInit, some .conflict) := by decide
+example : (applyUpdate exNullInit (mkView ["z", "y"] .tt)
+    (.frame [0, 1] [⟨"z", .int, [.int 1, .int 1]⟩, ⟨"y", .time, [.null, .null]⟩])).2 = none := by decide
+/-- lesson 15, birth (the code as it exists): the creator of `y` gives the new simulant null, a second component a value –
+accepted, the null is overwritten (observed, not a finding); with one filled cell among the addressed ones it is a conflict -/
+def exNullBirth (ys : List Val) : Mgr := (runOps exM [.create 2, .upd trackedView (trackedInit [2, 3]),
+    .upd (mkView ["x", "y"] .tt) (.frame [2, 3] [⟨"x", .int, [.int 6, .int 7]⟩, ⟨"y", .str, ys⟩])]).1
+theorem birth_null_first_example :
+    (applyUpdate (exNullBirth [.null, .null]) (mkView ["y"] .tt) (.frame [2, 3] [⟨"y", .str, [.str "q", .str "r"]⟩])).2 = none ∧
+    (applyUpdate (exNullBirth [.null, .str "r"]) (mkView ["y"] .tt) (.frame [2, 3] [⟨"y", .str, [.str "q", .str "r"]⟩])).2 = some .conflict ∧
+    (applyUpdate (exNullBirth [.str "q", .str "r"]) (mkView ["y"] .tt) (.frame [2, 3] [⟨"y", .str, [.null, .str "r"]⟩])).2 = some .conflict := by
+  decide
 
 end Viv.Props.C13
